@@ -118,7 +118,7 @@ def crop(params):
 def maplabels(params):
     from panoptica._functionals import _map_labels
     dtype = params["dtype"]
-    hi = np.iinfo(dtype).max
+    hi = min(int(np.iinfo(dtype).max), 2 ** 24 - 1)  # the property's (and the proof's) label range: below 2^24 (the routine allocates a table of that size)
     bad = []
     for k, v in ((1, hi), (1, hi + 1 if hi < 2 ** 40 else hi), (2, hi + 7 if hi < 2 ** 40 else hi), (hi, 3), (min(hi, 300), 5)):
         arr = np.array([0, 1, 2, min(hi, 300), hi, 1], dtype=dtype)
@@ -132,6 +132,22 @@ def maplabels(params):
             bad.append({"arr": arr.tolist(), "map": m, "got": f"raised {type(e).__name__}: {e}"[:100]})
     # crossed / chained maps (the relabelling is simultaneous, not sequential) and the width of the result
     small = min(hi, 300)
+    big = [b for b in (700, 900, 70000, 70001, 70002) if b <= hi]
+    crossed_big = []
+    if len(big) >= 2:
+        crossed_big = [({big[0]: big[1], big[1]: big[0]}, [0, big[0], big[1], big[0], 1]), ({big[0]: big[1], big[1]: 5}, [0, big[0], big[1], 2, big[1]])]
+    if len(big) >= 5:
+        crossed_big.append(({70000: 70001, 70001: 70002}, [70000, 70001, 0, 70001, 70000]))
+    for m, vals in crossed_big:
+        arr = np.array(vals, dtype=dtype)  # large labels in a small array (sparse label space)
+        a0 = arr.copy()
+        try:
+            out = _map_labels(arr, m)
+            want = [m.get(int(x), int(x)) for x in a0]
+            if [int(x) for x in out] != want:
+                bad.append({"arr": a0.tolist(), "map": m, "got": [int(x) for x in out], "want": want})
+        except Exception as e:
+            bad.append({"arr": a0.tolist(), "map": m, "got": f"raised {type(e).__name__}: {e}"[:100]})
     for m in ({1: 2, 2: 1}, {1: 2, 2: 3}, {2: 1, 1: 2, 3: 1}, {1: 3}, {small: 1}):
         arr = np.array([0, 1, 2, 3, small, 1, 2], dtype=dtype)
         a0 = arr.copy()
@@ -208,6 +224,15 @@ def bounded(params):
                             wc = WC_ENC
                         failures.append({"input": {"pred": pred.tolist(), "ref": ref.tolist(), "dtype": dtype, "input_type": it}, "problems": [str(diff)[:400]],
                                          "witness_class": wc, "replay_kind": "c09.e2e"})
+    for dt_ in ("uint8", "uint16", "uint32", "uint64"):
+        res = maplabels({"dtype": dt_})
+        evals += 1
+        for pb in res["problems"][:1]:
+            failures.append({"input": {"dtype": dt_, "case": pb}, "problems": [str(pb)[:300]], "replay_kind": "c09.maplabels", "witness_class": res.get("witness_class")})
+    for res, kind in ((overlap_frame({}), "c09.overlap_frame"), (overlap_layout({}), "c09.overlap_layout")):
+        evals += 1
+        for pb in res["problems"][:1]:
+            failures.append({"input": {"case": pb}, "problems": [str(pb)[:300]], "replay_kind": kind})
     return {"evaluations": evals, "distinct_nontrivial": nontriv, "failures": failures,
             "rule": "3 base 1-D pairs x {unmatched, matched} x 4 unsigned dtypes x seeded injective relabellings into the adversarial label family (near 2^8, 2^16, 2^24, dtype max); all reported metrics compared with the small-label uint8 evaluation",
             "bound": "length 10"}
